@@ -33,6 +33,7 @@ PROP = [  # (subject fragment, property ids, key that used to be reported)
  ('grep path regexes let a colon precede the extension dot', 'C16', "c16:path:plain / c16:group-header:plain (code starting with '.word' + separator)"),
  ('binary file of a combined diff was reported without its name', 'C14', "c14:header-missing:binary_cc ('diff --cc F' + 'Binary files differ' rendered with no file name)"),
  ("line of diff -r output was dropped after a file section", 'C14,C04', "c14:header-missing:binary_bare (bare 'Binary files X and Y differ' after a file section of diff -ru output lost)"),
+ ("--color-only emitted decoration lines for", 'C02', "c02:line-count:* (--color-only --file-style 'blue box': 11 output lines for 7 input lines)"),
 ]
 log = subprocess.run(['git', '-C', '/repo', 'log', '--format=%H%x09%s', '--reverse'], stdout=subprocess.PIPE).stdout.decode().splitlines()
 fixes = [l.split('\t', 1) for l in log if '\tfix:' in l]
